@@ -840,6 +840,118 @@ def unkscan(ctx):
            "tokens report the parameters or feature of another unk.def entry" % "; ".join(bad))
 
 
+def grouprun(ctx):
+    """GROUPRUN (C03, C12, C01): `the maximal run of category-sharing characters` - a run continues
+    from one character to the next when *these two* characters share a category (each adjacent
+    pair; a character with two categories bridges them). In Sentence::compute_groupable every
+    test that decides continuation is `(A & B) != 0` where A and B are category sets of single
+    characters: `cate_idset()` of an element of cinfos, or a variable every definition of which
+    is such a value. A variable that is updated with the result of an AND (`shared &= ..`) makes
+    the run require one category common to the whole run - a different, smaller run."""
+    crate = ctx.facts("A").lib
+    E = Effects(crate)
+    p = "vibrato::sentence::Sentence::compute_groupable"
+    f = crate.fns.get(p)
+    if f is None or not f.body:
+        raise EngineError("GROUPRUN: anchor lost: %s" % p)
+    region = [p] + sorted(q for q in crate.fns if q.startswith(p + "::{closure") and crate.fns[q].body)
+    n = 0
+    for q in region:
+        fa = E.fa(q)
+        S = Sym(E, fa, depth=20)
+
+        def single_char_set(op, seen=None):
+            """operand is cate_idset(<one CharInfo>) or a variable all of whose definitions are"""
+            seen = seen if seen is not None else set()
+            pl = op_place(op)
+            if pl is None:
+                return False, "a constant"
+            if pl["p"] and not all(e == "*" for e in pl["p"]):
+                # a captured variable of a closure / a field: judge its definitions in the parent
+                e = S.operand(op)
+                return ("cate_idset(" in show(e) and "BitAnd" not in show(e)), show(e)[:50]
+            l = pl["l"]
+            if l in seen:
+                return True, ""
+            seen.add(l)
+            ds = [d for d in fa.defs().get(l, []) if d[2] != "partial"]
+            if not ds:
+                if 1 <= l <= fa.arg_count:
+                    return True, ""         # a parameter (closure item): a CharInfo's set by type
+                return False, "an undefined value"
+            for (b, i, kind, payload) in ds:
+                if kind == "call":
+                    nm = (callee_of(payload) or {}).get("name")
+                    if nm == "cate_idset":
+                        continue
+                    if nm in ("clone", "deref", "unwrap", "copied") and payload["args"]:
+                        ok, why = single_char_set(payload["args"][0], seen)
+                        if not ok:
+                            return False, why
+                        continue
+                    return False, "the result of %s()" % nm
+                rv = payload
+                if rv["k"] in ("use", "cast"):
+                    if op_const(rv["op"]) is not None:
+                        return False, "a constant"
+                    ok, why = single_char_set(rv["op"], seen)
+                    if not ok:
+                        return False, why
+                elif rv["k"] == "ref":
+                    ok, why = single_char_set({"c": rv["place"]}, seen)
+                    if not ok:
+                        return False, why
+                elif rv["k"] == "binop":
+                    return False, "the result of %s (an accumulated value)" % rv["op"]
+                else:
+                    return False, rv["k"]
+            return True, ""
+
+        for b in sorted(fa.live_blocks()):
+            t = fa.term(b)
+            if t["k"] != "switch":
+                continue
+            o = fa.origin(t["op"])
+            if not (o[0] == "rv" and o[1]["k"] == "binop" and o[1]["op"] in ("Ne", "Eq")):
+                continue
+            for side in ("a", "b"):
+                oo = fa.origin(o[1][side])
+                if oo[0] == "rv" and oo[1]["k"] == "binop" and oo[1]["op"] == "BitAnd":
+                    n += 1
+                    bad = []
+                    for k in ("a", "b"):
+                        ok, why = single_char_set(oo[1][k])
+                        if not ok:
+                            bad.append(why)
+                    ctx.ob("GROUPRUN", "compute_groupable|continuation-test-on-two-single-characters|%d" % n,
+                           not bad, fa.loc(b),
+                           "a run continues when two single characters share a category" if not bad else
+                           "the run-continuation test of compute_groupable ANDs %s: the run is no longer "
+                           "`each adjacent pair shares a category` (a character in two categories no "
+                           "longer bridges them)" % " and ".join(bad))
+        # closures mutating a captured accumulator: `shared &= x` inside take_while
+        for b, i, s0 in fa.stmts():
+            rv = s0.get("rv")
+            if rv and rv["k"] == "binop" and rv["op"] == "BitAnd" and q != p and s0["lhs"]["p"]:
+                n += 1
+                ctx.ob("GROUPRUN", "compute_groupable|no-accumulated-intersection|%d" % n, False, fa.loc(b, i),
+                       "a closure of compute_groupable stores `captured & set` back into the captured "
+                       "variable: the run requires one category common to all of its characters "
+                       "instead of each adjacent pair sharing one")
+                continue
+            if rv and rv["k"] == "binop" and rv["op"] == "BitAnd" and q != p:
+                # result stored back into a capture?
+                for b2, i2, s2 in fa.stmts():
+                    if "lhs" in s2 and s2["lhs"]["p"] and s2["rv"]["k"] == "use" and \
+                            op_place(s2["rv"]["op"]) and op_place(s2["rv"]["op"])["l"] == s0["lhs"]["l"]:
+                        n += 1
+                        ctx.ob("GROUPRUN", "compute_groupable|no-accumulated-intersection|%d" % n, False, fa.loc(b, i),
+                               "a closure of compute_groupable stores `captured & set` back into the captured "
+                               "variable: the run requires one category common to all of its characters "
+                               "instead of each adjacent pair sharing one")
+    ctx.floor("GROUPRUN", "run-continuation tests", n, 1)
+
+
 def charrange(ctx):
     """CHARRANGE (C03, C12): `A character's categories come from the last char.def range line
     covering it (inclusive bounds)`.
